@@ -416,8 +416,9 @@ class SocksRun(object):
             self.reply_value = ('ip', str(ipaddress.IPv6Address(addr)))
             sim.probe('atyp-ipv6')
         elif atyp == 3:
-            name = [b'host.example', b'a', b'x' * 40, b'ab', b'y' * 253, b'z' * 254, b'w' * 255][
-                ch.weighted([8, 6, 4, 6, 1, 1, 1], 'bname')]
+            name = [b'host.example', b'a', b'x' * 40, b'ab', b'y' * 253, b'z' * 254, b'w' * 255,
+                    b'dns.example.', b'4.3.2.1.in-addr.arpa.', b'.', b'a..'][      # (fully-qualified answers keep their dot)
+                ch.weighted([8, 6, 4, 6, 1, 1, 1, 4, 2, 1, 1], 'bname')]
             if len(name) >= 254:
                 sim.probe('reply-domain-length-254..255')
             body = bytes([len(name)]) + name
